@@ -53,6 +53,8 @@ static const struct { long nr; const char *name; } SC[] = {
 	{ SYS_link, "link" }, { SYS_linkat, "linkat" }, { SYS_symlink, "symlink" }, { SYS_symlinkat, "symlinkat" },
 	{ SYS_truncate, "truncate" }, { SYS_ftruncate, "ftruncate" }, { SYS_fsync, "fsync" }, { SYS_fallocate, "fallocate" },
 	{ SYS_sendfile, "sendfile" }, { SYS_copy_file_range, "copy_file_range" },
+	/* where the process stands in the file system */
+	{ SYS_getcwd, "getcwd" }, { SYS_chdir, "chdir" },
 };
 #define NSC ((int) (sizeof(SC) / sizeof(SC[0])))
 
@@ -63,7 +65,7 @@ static const struct { int e; const char *n, *d; } ERR[] = {
 	{ EBADF, "EBADF", "Bad file descriptor" }, { ENOTEMPTY, "ENOTEMPTY", "Directory not empty" },
 	{ EISDIR, "EISDIR", "Is a directory" }, { ENOTDIR, "ENOTDIR", "Not a directory" },
 	{ EINTR, "EINTR", "Interrupted system call" }, { EFBIG, "EFBIG", "File too large" },
-	{ EXDEV, "EXDEV", "Invalid cross-device link" },
+	{ EXDEV, "EXDEV", "Invalid cross-device link" }, { ERANGE, "ERANGE", "Numerical result out of range" },
 };
 #define NERR ((int) (sizeof(ERR) / sizeof(ERR[0])))
 
@@ -254,6 +256,13 @@ fmt_args(struct tstate *t, const struct sc_info *si)
 	case SYS_creat:
 		rdstr(t->tid, a[0], s, sizeof(s));
 		snprintf(t->args, sizeof(t->args), "AT_FDCWD, \"%s\", O_WRONLY|O_CREAT|O_TRUNC", s);
+		break;
+	case SYS_chdir:
+		rdstr(t->tid, a[0], s, sizeof(s));
+		snprintf(t->args, sizeof(t->args), "\"%s\"", s);
+		break;
+	case SYS_getcwd:
+		snprintf(t->args, sizeof(t->args), "0x%llx, %llu", (unsigned long long) a[0], (unsigned long long) a[1]);
 		break;
 	case SYS_truncate:
 		rdstr(t->tid, a[0], s, sizeof(s));
